@@ -36,6 +36,12 @@ TNext == /\ l <= Len(Trace) /\ l' = l + 1
                     IN IF want = E.out THEN TRUE
                        ELSE PrintT(<<"VIOL", l, {IF Len(E.out) < Len(want) THEN "C20:processor-loses-distinct-messages"
                                                  ELSE "C20:processor-output-differs-from-limiter-rule"}>>)
+            ELSE IF E.ev = "prep"     \* two consecutive frames of one processor script that are the same step of the script and
+                                      \* led to the same storage calls with the same results (frame writes only, one failing at least): one
+                                      \* condition recurring.  `a` and `b` are the messages the processor tried to log on the two
+                                      \* frames; were they to differ, the limiter could never recognise the repetition.
+            THEN /\ UNCHANGED <<interval, lastMsg, lastTime, has>>
+                 /\ (IF E.a = E.b THEN TRUE ELSE PrintT(<<"VIOL", l, {"C20:recurring-condition-reworded-every-frame"}>>))
             ELSE LET should == ~(has /\ E.msg = lastMsg /\ E.now - lastTime < interval)
                      did    == E.out # ""
                      v == (IF should /\ ~did THEN {"C20:message-lost"} ELSE {})
